@@ -1,1 +1,534 @@
-(* Props/C05.v -- stub, to be filled in *)
+(* Props/C05.v -- property theorems only: Theorem / exact lemma / Check (pins the statement) / Print Assumptions.
+   Tridiagonal matrices (src/tridiagonal.rs, model coq/Model/Tridiag.v).
+     wfT t      : |main| = n, |sub| = |sup| = n - 1           (what every constructor establishes)
+     dense t    : nat -> nat -> A, the textbook matrix with the same three diagonals (the "dense twin")
+     in_band i j: i = j \/ i = j + 1 \/ i + 1 = j
+     entry m i j: element (i,j) of the flat row-major dense matrix returned by convert *)
+From Coq Require Import List Arith Bool ZArith QArith Qcanon Floats.
+Local Open Scope nat_scope.
+From OV Require Import Base.Panic Base.Arith Model.Vector Model.Matrix Model.Tridiag Inst.QcInst Inst.FloatInst Proofs.Tridiag Proofs.TridiagSolve Proofs.TridiagDet Proofs.TridiagTotal.
+Import ListNotations.
+
+(* ---- views: index, convert, transpose (every n >= 1, every entry value, any arithmetic) ---- *)
+Theorem tridiag_views : forall (A : Arith) (t : tridiag A), wfT t -> 1 <= tn t ->
+  (forall i j, i < tn t -> j < tn t -> in_band i j -> tindex t i j = Ok (dense t i j)) /\
+  (forall i j, tn t <= i \/ tn t <= j \/ ~ in_band i j -> tindex t i j = Panic Guard) /\
+  (forall i j, ~ in_band i j -> dense t i j = zero) /\
+  (exists m, tconvert t = Ok m /\ wfM m /\ rows m = tn t /\ cols m = tn t /\
+             forall i j, i < tn t -> j < tn t -> entry m i j = dense t i j) /\
+  (wfT (ttranspose t) /\ tn (ttranspose t) = tn t /\ forall i j, dense (ttranspose t) i j = dense t j i).
+Proof. intros A t. exact (tridiag_views_lemma t). Qed.
+Check tridiag_views : forall (A : Arith) (t : tridiag A), wfT t -> 1 <= tn t ->
+  (forall i j, i < tn t -> j < tn t -> in_band i j -> tindex t i j = Ok (dense t i j)) /\
+  (forall i j, tn t <= i \/ tn t <= j \/ ~ in_band i j -> tindex t i j = Panic Guard) /\
+  (forall i j, ~ in_band i j -> dense t i j = zero) /\
+  (exists m, tconvert t = Ok m /\ wfM m /\ rows m = tn t /\ cols m = tn t /\
+             forall i j, i < tn t -> j < tn t -> entry m i j = dense t i j) /\
+  (wfT (ttranspose t) /\ tn (ttranspose t) = tn t /\ forall i j, dense (ttranspose t) i j = dense t j i).
+Print Assumptions tridiag_views.
+
+(* a concrete non-trivial input meeting the hypotheses: the 3x3 matrix [[1,2,0],[3,4,5],[0,6,7]] over Qc *)
+Definition ex3 : tridiag AQ := @mkT AQ [q 3 1; q 6 1] [q 1 1; q 4 1; q 7 1] [q 2 1; q 5 1] 3.
+Example tridiag_views_nonvacuous : wfT ex3 /\ 1 <= tn ex3.
+Proof. unfold wfT; cbn; auto. Qed.
+
+(* ---- writes through IndexMut change exactly the addressed entry, or are refused ---- *)
+Theorem tridiag_writes : forall (A : Arith) (t : tridiag A) i j (x : A), wfT t ->
+  (i < tn t -> j < tn t -> in_band i j ->
+     exists t', tset t i j x = Ok t' /\ wfT t' /\ tn t' = tn t /\
+       forall a b, a < tn t -> b < tn t -> dense t' a b = if (a =? i) && (b =? j) then x else dense t a b) /\
+  (tn t <= i \/ tn t <= j \/ ~ in_band i j -> tset t i j x = Panic Guard).
+Proof. intros A t i j x. exact (tridiag_writes_lemma t i j x). Qed.
+Check tridiag_writes : forall (A : Arith) (t : tridiag A) i j (x : A), wfT t ->
+  (i < tn t -> j < tn t -> in_band i j ->
+     exists t', tset t i j x = Ok t' /\ wfT t' /\ tn t' = tn t /\
+       forall a b, a < tn t -> b < tn t -> dense t' a b = if (a =? i) && (b =? j) then x else dense t a b) /\
+  (tn t <= i \/ tn t <= j \/ ~ in_band i j -> tset t i j x = Panic Guard).
+Print Assumptions tridiag_writes.
+Example tridiag_writes_nonvacuous : wfT ex3 /\ 2 < tn ex3 /\ 1 < tn ex3 /\ in_band 2 1.
+Proof. unfold wfT, in_band; cbn; repeat split; auto. Qed.
+
+(* ... and so does any history of writes: refused writes leave the matrix as it was ([wstep]), accepted ones update the
+   textbook matrix pointwise ([dstep]); well-formedness is an invariant of the history *)
+Theorem tridiag_write_history : forall (A : Arith) (ws : list (nat * nat * A)) (t : tridiag A), wfT t ->
+  wfT (fold_left wstep ws t) /\ tn (fold_left wstep ws t) = tn t /\
+  forall a b, a < tn t -> b < tn t ->
+    dense (fold_left wstep ws t) a b = fold_left (dstep (tn t)) ws (dense t) a b.
+Proof. intros A ws t. exact (write_history_lemma ws t). Qed.
+Check tridiag_write_history : forall (A : Arith) (ws : list (nat * nat * A)) (t : tridiag A), wfT t ->
+  wfT (fold_left wstep ws t) /\ tn (fold_left wstep ws t) = tn t /\
+  forall a b, a < tn t -> b < tn t ->
+    dense (fold_left wstep ws t) a b = fold_left (dstep (tn t)) ws (dense t) a b.
+Print Assumptions tridiag_write_history.
+
+(* ---- arithmetic = arithmetic on the dense twin (ring laws: -0 = 0, 0 + 0 = 0, 0 * s = 0) ---- *)
+Theorem tridiag_arith : forall (A : Arith), RingLaws A -> forall (a b : tridiag A) (s : A),
+  wfT a -> wfT b -> tn a = tn b ->
+  (wfT (tneg a) /\ tn (tneg a) = tn a /\ forall i j, dense (tneg a) i j = (- dense a i j)%A) /\
+  (exists c, tadd a b = Ok c /\ wfT c /\ tn c = tn a /\ forall i j, dense c i j = (dense a i j + dense b i j)%A) /\
+  (exists c, tminus a b = Ok c /\ wfT c /\ tn c = tn a /\ forall i j, dense c i j = (dense a i j - dense b i j)%A) /\
+  (wfT (tscale a s) /\ tn (tscale a s) = tn a /\ forall i j, dense (tscale a s) i j = (dense a i j * s)%A) /\
+  (wfT (tscale_l s a) /\ tn (tscale_l s a) = tn a /\ forall i j, dense (tscale_l s a) i j = (s * dense a i j)%A).
+Proof. intros A RL a b s. exact (tridiag_arith_lemma RL a b s). Qed.
+Check tridiag_arith : forall (A : Arith), RingLaws A -> forall (a b : tridiag A) (s : A),
+  wfT a -> wfT b -> tn a = tn b ->
+  (wfT (tneg a) /\ tn (tneg a) = tn a /\ forall i j, dense (tneg a) i j = (- dense a i j)%A) /\
+  (exists c, tadd a b = Ok c /\ wfT c /\ tn c = tn a /\ forall i j, dense c i j = (dense a i j + dense b i j)%A) /\
+  (exists c, tminus a b = Ok c /\ wfT c /\ tn c = tn a /\ forall i j, dense c i j = (dense a i j - dense b i j)%A) /\
+  (wfT (tscale a s) /\ tn (tscale a s) = tn a /\ forall i j, dense (tscale a s) i j = (dense a i j * s)%A) /\
+  (wfT (tscale_l s a) /\ tn (tscale_l s a) = tn a /\ forall i j, dense (tscale_l s a) i j = (s * dense a i j)%A).
+Print Assumptions tridiag_arith.
+Example tridiag_arith_nonvacuous : wfT ex3 /\ wfT (ttranspose ex3) /\ tn ex3 = tn (ttranspose ex3).
+Proof. unfold wfT; cbn; auto. Qed.
+
+(* mismatched sizes are refused *)
+Theorem tridiag_arith_rejects : forall (A : Arith) (a b : tridiag A), tn a <> tn b ->
+  tadd a b = Panic Guard /\ tminus a b = Panic Guard.
+Proof. intros A a b. exact (tadd_rejects a b). Qed.
+Check tridiag_arith_rejects : forall (A : Arith) (a b : tridiag A), tn a <> tn b ->
+  tadd a b = Panic Guard /\ tminus a b = Panic Guard.
+Print Assumptions tridiag_arith_rejects.
+Example tridiag_arith_rejects_nonvacuous : tn ex3 <> tn (@mkT AQ [] [q 1 1] [] 1).
+Proof. cbn. discriminate. Qed.
+
+(* T += s, T -= s, T *= s act on the stored (in-band) elements *)
+Theorem tridiag_scalar_assign : forall (A : Arith), RingLaws A -> forall (t : tridiag A) (s : A), wfT t ->
+  (wfT (tadd_assign_s t s) /\ tn (tadd_assign_s t s) = tn t /\
+   forall i j, i < tn t -> j < tn t -> in_band i j -> dense (tadd_assign_s t s) i j = (dense t i j + s)%A) /\
+  (wfT (tsub_assign_s t s) /\ tn (tsub_assign_s t s) = tn t /\
+   forall i j, i < tn t -> j < tn t -> in_band i j -> dense (tsub_assign_s t s) i j = (dense t i j - s)%A) /\
+  (wfT (tmul_assign_s t s) /\ tn (tmul_assign_s t s) = tn t /\
+   forall i j, dense (tmul_assign_s t s) i j = (dense t i j * s)%A).
+Proof. intros A RL t s. exact (tridiag_scalar_assign_lemma RL t s). Qed.
+Check tridiag_scalar_assign : forall (A : Arith), RingLaws A -> forall (t : tridiag A) (s : A), wfT t ->
+  (wfT (tadd_assign_s t s) /\ tn (tadd_assign_s t s) = tn t /\
+   forall i j, i < tn t -> j < tn t -> in_band i j -> dense (tadd_assign_s t s) i j = (dense t i j + s)%A) /\
+  (wfT (tsub_assign_s t s) /\ tn (tsub_assign_s t s) = tn t /\
+   forall i j, i < tn t -> j < tn t -> in_band i j -> dense (tsub_assign_s t s) i j = (dense t i j - s)%A) /\
+  (wfT (tmul_assign_s t s) /\ tn (tmul_assign_s t s) = tn t /\
+   forall i j, dense (tmul_assign_s t s) i j = (dense t i j * s)%A).
+Print Assumptions tridiag_scalar_assign.
+Example tridiag_scalar_assign_nonvacuous : wfT ex3 /\ 1 < tn ex3 /\ 2 < tn ex3 /\ in_band 1 2.
+Proof. unfold wfT, in_band; cbn; repeat split; auto. Qed.
+
+(* ---- &T * &v = dense twin times v, for every n >= 1 (n = 1 needs the repair 1f8b278) ---- *)
+Theorem tridiag_mul_spec : forall (A : Arith), RingLaws A -> forall (t : tridiag A) (v : list A),
+  wfT t -> 1 <= tn t -> length v = tn t ->
+  exists w, tmul t v = Ok w /\ length w = tn t /\
+    forall i, i < tn t -> nth i w zero = sum_n (tn t) (fun j => (dense t i j * nth j v zero)%A).
+Proof. intros A RL t v. exact (tmul_spec_lemma RL t v). Qed.
+Check tridiag_mul_spec : forall (A : Arith), RingLaws A -> forall (t : tridiag A) (v : list A),
+  wfT t -> 1 <= tn t -> length v = tn t ->
+  exists w, tmul t v = Ok w /\ length w = tn t /\
+    forall i, i < tn t -> nth i w zero = sum_n (tn t) (fun j => (dense t i j * nth j v zero)%A).
+Print Assumptions tridiag_mul_spec.
+Example tridiag_mul_spec_nonvacuous :
+  wfT ex3 /\ 1 <= tn ex3 /\ length ([q 1 1; q (-1) 2; q 2 1] : list AQ) = tn ex3 /\
+  wfT (@mkT AQ [] [q 3 2] [] 1) /\ 1 <= 1 /\ length ([q (-4) 1] : list AQ) = 1.       (* and the n = 1 boundary *)
+Proof. unfold wfT; cbn; auto 10. Qed.
+
+(* the pre-repair product (Legacy/C05Refuted.v) is refuted by the committed witness and panics on every 1x1 input:
+   the hypothesis 1 <= tn t of [tridiag_mul_spec] cannot be met by the pinned code at n = 1 *)
+From OV Require Import Legacy.C05Refuted.
+Check tridiag_mul_legacy_refuted :
+  exists (t : tridiag AQ) (v : list AQ), wfT t /\ 1 <= tn t /\ length v = tn t /\ tmul_legacy t v = Panic Index.
+Check tridiag_mul_legacy_panics_on_every_1x1 : forall (A : Arith) (t : tridiag A) (v : list A),
+  wfT t -> tn t = 1 -> length v = 1 -> tmul_legacy t v = Panic Index.
+
+Theorem tridiag_mul_rejects : forall (A : Arith) (t : tridiag A) (v : list A),
+  length v <> tn t -> tmul t v = Panic Guard.
+Proof. intros A t v. exact (tmul_rejects t v). Qed.
+Check tridiag_mul_rejects : forall (A : Arith) (t : tridiag A) (v : list A),
+  length v <> tn t -> tmul t v = Panic Guard.
+Print Assumptions tridiag_mul_rejects.
+Example tridiag_mul_rejects_nonvacuous : length ([q 1 1] : list AQ) <> tn ex3.
+Proof. cbn. discriminate. Qed.
+
+(* ---- Thomas solve over an exact field: the exact solution, or a refusal at the first zero pivot ----
+   Differences from DESIGN Appendix E, all strengthenings or notation: the solution is stated row by row
+   (sum over the dense twin), the Ok branch also says that every pivot is non-zero, and [thomas_pivot]
+   is computed with the arithmetic's own division, so [thomas_pivot t k = Ok zero] means: pivots 0..k-1
+   are non-zero (no DivZero) and pivot k vanishes -- k is the step at which the code refuses. *)
+Theorem thomas_exact_or_refuses : forall (A : Arith), FieldLaws A -> forall (t : tridiag A) (r : list A),
+  wfT t -> 1 <= tn t -> length r = tn t ->
+  (exists u, tsolve t r = Ok u /\ length u = tn t /\
+     (forall i, i < tn t -> sum_n (tn t) (fun j => (dense t i j * nth j u zero)%A) = nth i r zero) /\
+     (forall k, k < tn t -> exists p, thomas_pivot t k = Ok p /\ p <> zero)) \/
+  (tsolve t r = Panic Guard /\ exists k, k < tn t /\ thomas_pivot t k = Ok zero).
+Proof. intros A FL t r. exact (thomas_lemma FL t r). Qed.
+Check thomas_exact_or_refuses : forall (A : Arith), FieldLaws A -> forall (t : tridiag A) (r : list A),
+  wfT t -> 1 <= tn t -> length r = tn t ->
+  (exists u, tsolve t r = Ok u /\ length u = tn t /\
+     (forall i, i < tn t -> sum_n (tn t) (fun j => (dense t i j * nth j u zero)%A) = nth i r zero) /\
+     (forall k, k < tn t -> exists p, thomas_pivot t k = Ok p /\ p <> zero)) \/
+  (tsolve t r = Panic Guard /\ exists k, k < tn t /\ thomas_pivot t k = Ok zero).
+Print Assumptions thomas_exact_or_refuses.
+(* both branches are inhabited over Qc: ex3 is solved; [[1,1],[1,1]] is refused at step 1 *)
+Example thomas_nonvacuous :
+  wfT ex3 /\ 1 <= tn ex3 /\ length ([q 1 1; q 2 1; q 3 1] : list AQ) = tn ex3 /\
+  is_ok (tsolve ex3 ([q 1 1; q 2 1; q 3 1] : list AQ)) = true /\
+  tsolve (@mkT AQ [q 1 1] [q 1 1; q 1 1] [q 1 1] 2) ([q 1 1; q 2 1] : list AQ) = Panic Guard /\
+  is_ok (tsolve (@mkT AQ [q 1 1] [q 0 1; q 1 1] [q 1 1] 2) ([q 1 1; q 2 1] : list AQ)) = false.
+Proof. unfold wfT; cbn [tn tmain tsub tsup ex3 length]. repeat split; auto; vm_compute; reflexivity. Qed.
+
+(* the instance the exact tier of the correspondence check runs: Qc *)
+Theorem thomas_exact_or_refuses_Qc : forall (t : tridiag AQ) (r : list AQ),
+  wfT t -> 1 <= tn t -> length r = tn t ->
+  (exists u, tsolve t r = Ok u /\ length u = tn t /\
+     (forall i, i < tn t -> sum_n (tn t) (fun j => (dense t i j * nth j u zero)%A) = nth i r zero) /\
+     (forall k, k < tn t -> exists p, thomas_pivot t k = Ok p /\ p <> zero)) \/
+  (tsolve t r = Panic Guard /\ exists k, k < tn t /\ thomas_pivot t k = Ok zero).
+Proof. exact (thomas_lemma AQ_FieldLaws). Qed.
+Check thomas_exact_or_refuses_Qc : forall (t : tridiag AQ) (r : list AQ),
+  wfT t -> 1 <= tn t -> length r = tn t ->
+  (exists u, tsolve t r = Ok u /\ length u = tn t /\
+     (forall i, i < tn t -> sum_n (tn t) (fun j => (dense t i j * nth j u zero)%A) = nth i r zero) /\
+     (forall k, k < tn t -> exists p, thomas_pivot t k = Ok p /\ p <> zero)) \/
+  (tsolve t r = Panic Guard /\ exists k, k < tn t /\ thomas_pivot t k = Ok zero).
+Print Assumptions thomas_exact_or_refuses_Qc.
+
+(* ---- shape of solve over ANY arithmetic whose division answers for a divisor that is not == 0 (exact fields, f64,
+   Complex<f64>): Ok with n components, or the zero-pivot refusal; never a bounds failure, underflow or division panic ---- *)
+Theorem thomas_shape_any_arith : forall (A : Arith),
+  (forall x y : A, eqb y zero = false -> exists z, div x y = Ok z) ->
+  forall (t : tridiag A) (r : list A), wfT t -> 1 <= tn t -> length r = tn t ->
+  (exists u, tsolve t r = Ok u /\ length u = tn t) \/ tsolve t r = Panic Guard.
+Proof. intros A Hdiv t r. exact (thomas_shape_lemma Hdiv t r). Qed.
+Check thomas_shape_any_arith : forall (A : Arith),
+  (forall x y : A, eqb y zero = false -> exists z, div x y = Ok z) ->
+  forall (t : tridiag A) (r : list A), wfT t -> 1 <= tn t -> length r = tn t ->
+  (exists u, tsolve t r = Ok u /\ length u = tn t) \/ tsolve t r = Panic Guard.
+Print Assumptions thomas_shape_any_arith.
+(* the hypothesis holds of the two float instances the correspondence check runs (their division never panics) *)
+Example thomas_shape_any_arith_nonvacuous :
+  (forall x y : AF, eqb y zero = false -> exists z, div x y = Ok z) /\
+  (forall x y : ACF, eqb y zero = false -> exists z, div x y = Ok z).
+Proof. split; intros x y _; eexists; reflexivity. Qed.
+
+(* ---- T / s and T /= s over a field: entrywise division, or the arithmetic's own division-by-zero panic ---- *)
+Theorem tridiag_div_scalar : forall (A : Arith) (FL : FieldLaws A) (t : tridiag A) (s : A), wfT t ->
+  (s <> zero ->
+     exists c, tdiv t s = Ok c /\ tdiv_assign_s t s = Ok c /\ wfT c /\ tn c = tn t /\
+               forall i j, dense c i j = (dense t i j * fl_inv A FL s)%A) /\
+  (s = zero -> 1 <= tn t -> tdiv t s = Panic DivZero /\ tdiv_assign_s t s = Panic DivZero).
+Proof. intros A FL t s. exact (tdiv_spec_lemma FL t s). Qed.
+Check tridiag_div_scalar : forall (A : Arith) (FL : FieldLaws A) (t : tridiag A) (s : A), wfT t ->
+  (s <> zero ->
+     exists c, tdiv t s = Ok c /\ tdiv_assign_s t s = Ok c /\ wfT c /\ tn c = tn t /\
+               forall i j, dense c i j = (dense t i j * fl_inv A FL s)%A) /\
+  (s = zero -> 1 <= tn t -> tdiv t s = Panic DivZero /\ tdiv_assign_s t s = Panic DivZero).
+Print Assumptions tridiag_div_scalar.
+Example tridiag_div_scalar_nonvacuous : wfT ex3 /\ q 3 2 <> (zero : AQ) /\ 1 <= tn ex3.
+Proof. unfold wfT; cbn [tn tmain tsub tsup ex3 length]. repeat split; auto. discriminate. Qed.
+
+(* ---- constructors: well-shaped diagonals are stored as given; ill-shaped ones are refused ---- *)
+Theorem tridiag_constructors : forall (A : Arith) (sub main sup : list A) (a b c : A) (n : nat),
+  (1 <= length main -> length sub = length main - 1 -> length sup = length main - 1 ->
+     exists t, with_vecs sub main sup = Ok t /\ wfT t /\ tn t = length main /\
+               tsub t = sub /\ tmain t = main /\ tsup t = sup) /\
+  (1 <= length main -> (length sub <> length main - 1 \/ length sup <> length main - 1) ->
+     with_vecs sub main sup = Panic Guard) /\
+  (1 <= n -> exists t, with_elements a b c n = Ok t /\ wfT t /\ tn t = n /\
+     forall i j, i < n -> j < n -> dense t i j =
+       if i =? j then b else if i =? j + 1 then a else if i + 1 =? j then c else zero).
+Proof. intros A sub main sup a b c n. exact (tridiag_constructors_lemma sub main sup a b c n). Qed.
+Check tridiag_constructors : forall (A : Arith) (sub main sup : list A) (a b c : A) (n : nat),
+  (1 <= length main -> length sub = length main - 1 -> length sup = length main - 1 ->
+     exists t, with_vecs sub main sup = Ok t /\ wfT t /\ tn t = length main /\
+               tsub t = sub /\ tmain t = main /\ tsup t = sup) /\
+  (1 <= length main -> (length sub <> length main - 1 \/ length sup <> length main - 1) ->
+     with_vecs sub main sup = Panic Guard) /\
+  (1 <= n -> exists t, with_elements a b c n = Ok t /\ wfT t /\ tn t = n /\
+     forall i j, i < n -> j < n -> dense t i j =
+       if i =? j then b else if i =? j + 1 then a else if i + 1 =? j then c else zero).
+Print Assumptions tridiag_constructors.
+Example tridiag_constructors_nonvacuous :
+  1 <= length (tmain ex3) /\ length (tsub ex3) = length (tmain ex3) - 1 /\ length (tsup ex3) = length (tmain ex3) - 1.
+Proof. cbn. auto. Qed.
+
+(* ---- det: the three-term continuant recurrence, for every n >= 1 and ANY arithmetic (floats included) ----
+   tdet t is the continuant K n of the three diagonals, K being pinned by its defining equations below.
+   (K n = \det of the dense twin over every field is [tridiag_det_is_det] at the end of this file.) *)
+Theorem tridiag_det_is_continuant : forall (A : Arith) (t : tridiag A), wfT t -> 1 <= tn t ->
+  tdet t = Ok (continuant t (tn t)) /\
+  continuant t 0 = one /\
+  continuant t 1 = (nth 0 (tmain t) zero * one)%A /\
+  forall k, continuant t (S (S k)) =
+    (nth (S k) (tmain t) zero * continuant t (S k) - nth k (tsub t) zero * nth k (tsup t) zero * continuant t k)%A.
+Proof. intros A t. exact (tdet_continuant_lemma t). Qed.
+Check tridiag_det_is_continuant : forall (A : Arith) (t : tridiag A), wfT t -> 1 <= tn t ->
+  tdet t = Ok (continuant t (tn t)) /\
+  continuant t 0 = one /\
+  continuant t 1 = (nth 0 (tmain t) zero * one)%A /\
+  forall k, continuant t (S (S k)) =
+    (nth (S k) (tmain t) zero * continuant t (S k) - nth k (tsub t) zero * nth k (tsup t) zero * continuant t k)%A.
+Print Assumptions tridiag_det_is_continuant.
+Example tridiag_det_is_continuant_nonvacuous :      (* also at the float instance: no algebraic law is assumed *)
+  wfT ex3 /\ 1 <= tn ex3 /\ wfT (@mkT AF [1%float] [2%float; 3%float] [4%float] 2) /\ 1 <= 2.
+Proof. unfold wfT; cbn; repeat split; auto. Qed.
+
+(* over an exact field, det is the product of the Thomas pivots whenever elimination meets no zero pivot
+   (so det and solve describe one and the same elimination) *)
+Theorem tridiag_det_pivot_product : forall (A : Arith), FieldLaws A -> forall (t : tridiag A),
+  wfT t -> 1 <= tn t ->
+  (forall k, k < tn t -> exists p, thomas_pivot t k = Ok p /\ p <> zero) ->
+  tdet t = Ok (prod_n (tn t) (fun k => match thomas_pivot t k with Ok p => p | Panic _ => zero end)).
+Proof. intros A FL t. exact (tdet_pivots_lemma FL t). Qed.
+Check tridiag_det_pivot_product : forall (A : Arith), FieldLaws A -> forall (t : tridiag A),
+  wfT t -> 1 <= tn t ->
+  (forall k, k < tn t -> exists p, thomas_pivot t k = Ok p /\ p <> zero) ->
+  tdet t = Ok (prod_n (tn t) (fun k => match thomas_pivot t k with Ok p => p | Panic _ => zero end)).
+Print Assumptions tridiag_det_pivot_product.
+Example tridiag_det_pivot_product_nonvacuous :
+  wfT ex3 /\ 1 <= tn ex3 /\
+  forallb (fun k => match thomas_pivot ex3 k with Ok p => negb (Qc_eqb p (q 0 1)) | Panic _ => false end) (seq 0 (tn ex3)) = true.
+Proof. unfold wfT; cbn [tn tmain tsub tsup ex3 length]. repeat split; auto. Qed.
+
+(* ---- det is the determinant of the dense twin (mathcomp's \det), for every n >= 1, over every field ----
+   [ArithOfField abs ltb leb] is the Arith whose carrier, 0, 1, +, -, *, / and == are those of the mathcomp
+   fieldType F (abs/ltb/leb are unused by det and arbitrary); [dense_mx t] is the n x n mathcomp matrix
+   \matrix_(i, j) dense t i j.  Proof: tdet = continuant (above) and continuant = \det by Laplace expansion
+   along the last row and then along the last column of the remaining minor (Proofs/TridiagBridge.v). *)
+From mathcomp Require ssreflect.ssrnat algebra.ssralg algebra.matrix algebra.rat.
+From OV Require Import Proofs.TridiagBridge.
+Theorem tridiag_det_is_det : forall (F : ssralg.GRing.Field.type) (abs' : ssralg.GRing.Field.sort F -> ssralg.GRing.Field.sort F)
+  (ltb' leb' : ssralg.GRing.Field.sort F -> ssralg.GRing.Field.sort F -> bool)
+  (t : tridiag (ArithOfField abs' ltb' leb')), wfT t -> 1 <= tn t ->
+  tdet t = Ok (@matrix.determinant (ssralg.GRing.Field.ringType F) (tn t) (dense_mx t)).
+Proof. intros F abs' ltb' leb' t. exact (tdet_is_det_lemma (t := t)). Qed.
+Check tridiag_det_is_det : forall (F : ssralg.GRing.Field.type) (abs' : ssralg.GRing.Field.sort F -> ssralg.GRing.Field.sort F)
+  (ltb' leb' : ssralg.GRing.Field.sort F -> ssralg.GRing.Field.sort F -> bool)
+  (t : tridiag (ArithOfField abs' ltb' leb')), wfT t -> 1 <= tn t ->
+  tdet t = Ok (@matrix.determinant (ssralg.GRing.Field.ringType F) (tn t) (dense_mx t)).
+Print Assumptions tridiag_det_is_det.
+(* an instance: mathcomp's rationals, the matrix [[2,1],[1,1]] *)
+Example tridiag_det_is_det_nonvacuous :
+  let F := rat.rat_fieldType in
+  let one' := @ssralg.GRing.one (ssralg.GRing.Field.ringType F) in
+  let A' := ArithOfField (F := F) (fun x => x) (fun _ _ => false) (fun _ _ => false) in
+  let t := @mkT A' [one'] [@ssralg.GRing.add (ssralg.GRing.Field.zmodType F) one' one'; one'] [one'] 2 in
+  wfT t /\ 1 <= tn t.
+Proof. cbv zeta. unfold wfT. cbn [tn tmain tsub tsup length]. repeat split; auto. Qed.
+
+(* ---- over the reals: a strictly (row) diagonally dominant system is never refused ----
+   [AR_c05] is the Arith of Coq's real numbers (division by 0 = Panic DivZero, == decided by Req_EM_T);
+   [dominant t] : for every row i < n,  |main[i]| > |sub[i-1]| + |sup[i]|  (a missing neighbour counts 0).
+   Every pivot then satisfies |beta_k| > |sup[k]| >= 0.  This is the exact-arithmetic half of what the
+   property says about diagonally dominant f64 systems; rounding (backward stability) is not proved. *)
+From Coq Require Import Reals Lra.
+From OV Require Import Proofs.TridiagDominant.
+Theorem thomas_dominant_never_refuses : forall (t : tridiag AR_c05) (r : list AR_c05),
+  wfT t -> dominant t -> (1 <= tn t)%nat -> length r = tn t ->
+  exists u, tsolve t r = Ok u /\ length u = tn t /\
+    forall i, (i < tn t)%nat -> sum_n (tn t) (fun j => (dense t i j * nth j u zero)%A) = nth i r zero.
+Proof. intros t r W D. exact (dominant_solved_lemma t W D r). Qed.
+Check thomas_dominant_never_refuses : forall (t : tridiag AR_c05) (r : list AR_c05),
+  wfT t -> dominant t -> (1 <= tn t)%nat -> length r = tn t ->
+  exists u, tsolve t r = Ok u /\ length u = tn t /\
+    forall i, (i < tn t)%nat -> sum_n (tn t) (fun j => (dense t i j * nth j u zero)%A) = nth i r zero.
+Print Assumptions thomas_dominant_never_refuses.
+Print Assumptions tridiag_views.   (* separator: a closed theorem ends the axiom list above for the driver's output parser *)
+(* [[4,1,0],[1,-4,2],[0,-1,3]] is dominant *)
+Example thomas_dominant_nonvacuous :
+  let t := @mkT AR_c05 [1%R; (-1)%R] [4%R; (-4)%R; 3%R] [1%R; 2%R] 3 in
+  wfT t /\ dominant t /\ (1 <= tn t)%nat.
+Proof.
+  cbv zeta. split; [unfold wfT; cbn; auto|]. split; [|cbn; auto].
+  intros i Hi. cbn [tn] in Hi.
+  destruct i as [|[|[|i]]]; [| | |exfalso; apply (Nat.lt_irrefl 3); apply (Nat.le_lt_trans _ (S (S (S i)))); [apply le_n_S, le_n_S, le_n_S, Nat.le_0_l|exact Hi]];
+    cbn [nth tmain tsub tsup]; unfold Rabs; repeat destruct Rcase_abs; lra.
+Qed.
+
+(* ---- what solve computes over ANY arithmetic (no law assumed; the IEEE float instances included) ----
+   [fwd_rel t r n bl gl yl] (Proofs/TridiagTrace.v) says, with the arithmetic's own operations in the code's association:
+     bl_0 = main_0, bl_0 /= 0, yl_0 = r_0 / bl_0, and for 1 <= k < n:
+     gl_k = sup_{k-1} / bl_{k-1},  bl_k = main_k - sub_{k-1} * gl_k,  bl_k /= 0,  yl_k = (r_k - sub_{k-1} * yl_{k-1}) / bl_k *)
+From OV Require Import Proofs.TridiagTrace Proofs.TridiagRound.
+Theorem thomas_trace : forall (A : Arith) (t : tridiag A) (r u : list A),
+  wfT t -> (1 <= tn t)%nat -> length r = tn t -> tsolve t r = Ok u ->
+  exists bl gl yl : list A,
+    length u = tn t /\ length bl = tn t /\ length gl = tn t /\ length yl = tn t /\
+    fwd_rel t r (tn t) bl gl yl /\
+    nth (tn t - 1) u zero = nth (tn t - 1) yl zero /\
+    (forall i, (i + 1 < tn t)%nat -> nth i u zero = (nth i yl zero - nth (i + 1) gl zero * nth (i + 1) u zero)%A).
+Proof. intros A t r u W Hn Hr. exact (thomas_trace_lemma t r W Hn Hr u). Qed.
+Check thomas_trace : forall (A : Arith) (t : tridiag A) (r u : list A),
+  wfT t -> (1 <= tn t)%nat -> length r = tn t -> tsolve t r = Ok u ->
+  exists bl gl yl : list A,
+    length u = tn t /\ length bl = tn t /\ length gl = tn t /\ length yl = tn t /\
+    fwd_rel t r (tn t) bl gl yl /\
+    nth (tn t - 1) u zero = nth (tn t - 1) yl zero /\
+    (forall i, (i + 1 < tn t)%nat -> nth i u zero = (nth i yl zero - nth (i + 1) gl zero * nth (i + 1) u zero)%A).
+Print Assumptions thomas_trace.
+Example thomas_trace_nonvacuous :       (* a float system that is solved *)
+  let t := @mkT AF [1%float] [4%float; 3%float] [2%float] 2 in
+  wfT t /\ (1 <= tn t)%nat /\ length [1%float; 2%float] = tn t /\ is_ok (tsolve t [1%float; 2%float]) = true.
+Proof. cbv zeta. unfold wfT. cbn [tn tmain tsub tsup length]. repeat split; auto. Qed.
+
+(* ---- backward error of solve in the STANDARD MODEL of floating-point arithmetic ----
+   The operations are arbitrary functions on the reals that commit a relative error of at most u <= 1/64 per operation
+   (no underflow/overflow): this is the textbook abstraction of binary64 (u = 2^-53), NOT the IEEE instance AF that the
+   correspondence check runs -- but it is the same Gallina function [tsolve], instantiated at [ARnd fadd fsub fmul fdiv].
+   Whenever solve answers, the computed x solves a nearby tridiagonal system exactly, row by row (missing neighbours
+   are the padding zeros of 0 :: sub, 0 :: x and of nth's default); [gl] are the computed multipliers gamma_i.
+   For a diagonally dominant matrix |gamma_i| is about <= 1, so that the perturbation is of order u |T|: the
+   backward stability the property claims for diagonally dominant f64 systems, in the form of Higham (sec. 9.6).
+   Not proved: the bound |gamma_i| <= 1 + O(u) under dominance, and the absence of underflow/overflow. *)
+Theorem thomas_backward_error : forall (u : R), (0 <= u <= 1 / 64)%R ->
+  forall (fadd fsub fmul fdiv : R -> R -> R),
+  (forall x y, exists d, (Rabs d <= u)%R /\ fsub x y = ((x - y) * (1 + d))%R) ->
+  (forall x y, exists d, (Rabs d <= u)%R /\ fmul x y = (x * y * (1 + d))%R) ->
+  (forall x y, y <> 0%R -> exists d, (Rabs d <= u)%R /\ fdiv x y = (x / y * (1 + d))%R) ->
+  forall (t : tridiag (ARnd fadd fsub fmul fdiv)) (r x : list R),
+  wfT t -> (1 <= tn t)%nat -> length r = tn t -> tsolve t r = Ok x ->
+  length x = tn t /\
+  exists gl : list R, length gl = tn t /\
+  forall i, (i < tn t)%nat -> exists ea eb ec eg,
+    (Rabs ea <= 3 * u /\ Rabs eb <= 5 * u /\ Rabs ec <= 5 * u /\ Rabs eg <= 9 * u /\
+     nth i (0 :: tsub t) 0 * (1 + ea) * nth i (0 :: x) 0
+     + (nth i (tmain t) 0 * (1 + eb) + nth i (0 :: tsub t) 0 * nth i gl 0 * eg) * nth i x 0
+     + nth i (tsup t) 0 * (1 + ec) * nth (i + 1) x 0 = nth i r 0)%R.
+Proof. intros u Hu fadd fsub fmul fdiv Hs Hm Hd t r x. exact (thomas_backward_error_lemma u Hu fadd fsub fmul fdiv Hs Hm Hd t r x). Qed.
+Check thomas_backward_error : forall (u : R), (0 <= u <= 1 / 64)%R ->
+  forall (fadd fsub fmul fdiv : R -> R -> R),
+  (forall x y, exists d, (Rabs d <= u)%R /\ fsub x y = ((x - y) * (1 + d))%R) ->
+  (forall x y, exists d, (Rabs d <= u)%R /\ fmul x y = (x * y * (1 + d))%R) ->
+  (forall x y, y <> 0%R -> exists d, (Rabs d <= u)%R /\ fdiv x y = (x / y * (1 + d))%R) ->
+  forall (t : tridiag (ARnd fadd fsub fmul fdiv)) (r x : list R),
+  wfT t -> (1 <= tn t)%nat -> length r = tn t -> tsolve t r = Ok x ->
+  length x = tn t /\
+  exists gl : list R, length gl = tn t /\
+  forall i, (i < tn t)%nat -> exists ea eb ec eg,
+    (Rabs ea <= 3 * u /\ Rabs eb <= 5 * u /\ Rabs ec <= 5 * u /\ Rabs eg <= 9 * u /\
+     nth i (0 :: tsub t) 0 * (1 + ea) * nth i (0 :: x) 0
+     + (nth i (tmain t) 0 * (1 + eb) + nth i (0 :: tsub t) 0 * nth i gl 0 * eg) * nth i x 0
+     + nth i (tsup t) 0 * (1 + ec) * nth (i + 1) x 0 = nth i r 0)%R.
+Print Assumptions thomas_backward_error.
+Print Assumptions tridiag_views.   (* separator, as above *)
+(* the hypotheses are met by operations that do commit errors (u = 1/64: subtraction rounds up by 1/64, multiplication
+   down by 1/128, division is exact), and solve answers on a 1x1 system with them *)
+Example thomas_backward_error_nonvacuous :
+  let u := (1 / 64)%R in
+  let fsub := fun x y => ((x - y) * (1 + 1 / 64))%R in
+  let fmul := fun x y => (x * y * (1 + - (1 / 128)))%R in
+  let fdiv := fun x y => (x / y)%R in
+  (0 <= u <= 1 / 64)%R /\
+  (forall x y, exists d, (Rabs d <= u)%R /\ fsub x y = ((x - y) * (1 + d))%R) /\
+  (forall x y, exists d, (Rabs d <= u)%R /\ fmul x y = (x * y * (1 + d))%R) /\
+  (forall x y, y <> 0%R -> exists d, (Rabs d <= u)%R /\ fdiv x y = (x / y * (1 + d))%R) /\
+  let t := @mkT (ARnd Rplus fsub fmul fdiv) [] [2%R] [] 1 in
+  wfT t /\ (1 <= tn t)%nat /\ length [1%R] = tn t /\ tsolve t [1%R] = Ok [fdiv 1%R 2%R].
+Proof.
+  cbv zeta. split; [lra|]. split; [|split; [|split]].
+  - intros x y. exists (1 / 64)%R. split; [|reflexivity]. unfold Rabs. destruct Rcase_abs; lra.
+  - intros x y. exists (- (1 / 128))%R. split; [|reflexivity]. unfold Rabs. destruct Rcase_abs; lra.
+  - intros x y _. exists 0%R. split; [|ring]. rewrite Rabs_R0. lra.
+  - unfold wfT. cbn [tn tmain tsub tsup length]. repeat split; auto.
+    unfold tsolve. cbn. destruct (Req_EM_T 2 0); [lra|reflexivity].
+Qed.
+
+(* ---- backward stability for diagonally dominant systems, standard model of floating-point arithmetic ----
+   [dominant_u u t] : for every row  main_i /= 0  and  (|sub_{i-1}| + |sup_i|)(1+u) <= |main_i|(1-u)
+   (row dominance with the margin that rounding needs).  Then every computed multiplier has |gamma_i| <= 1 and the
+   computed x solves (T + dT) x = r exactly with  |dT| <= u * (3|a_i|, 5|b_i| + 9|a_i|, 5|c_i|)  entrywise:
+   Thomas solve is componentwise backward stable on diagonally dominant systems -- in the standard model
+   (relative error u per operation, no underflow/overflow), which is what the property's f64 clause abstracts to. *)
+Theorem thomas_dominant_backward_stable : forall (u : R), (0 <= u <= 1 / 64)%R ->
+  forall (fadd fsub fmul fdiv : R -> R -> R),
+  (forall x y, exists d, (Rabs d <= u)%R /\ fsub x y = ((x - y) * (1 + d))%R) ->
+  (forall x y, exists d, (Rabs d <= u)%R /\ fmul x y = (x * y * (1 + d))%R) ->
+  (forall x y, y <> 0%R -> exists d, (Rabs d <= u)%R /\ fdiv x y = (x / y * (1 + d))%R) ->
+  forall (t : tridiag (ARnd fadd fsub fmul fdiv)) (r x : list R),
+  wfT t -> (1 <= tn t)%nat -> length r = tn t -> dominant_u u fadd fsub fmul fdiv t -> tsolve t r = Ok x ->
+  length x = tn t /\
+  forall i, (i < tn t)%nat -> exists da db dc,
+    (Rabs da <= 3 * u * Rabs (nth i (0 :: tsub t) 0) /\
+     Rabs db <= 5 * u * Rabs (nth i (tmain t) 0) + 9 * u * Rabs (nth i (0 :: tsub t) 0) /\
+     Rabs dc <= 5 * u * Rabs (nth i (tsup t) 0) /\
+     (nth i (0 :: tsub t) 0 + da) * nth i (0 :: x) 0 + (nth i (tmain t) 0 + db) * nth i x 0
+     + (nth i (tsup t) 0 + dc) * nth (i + 1) x 0 = nth i r 0)%R.
+Proof. intros u Hu fadd fsub fmul fdiv Hs Hm Hd t r x. exact (thomas_dominant_backward_stable_lemma u Hu fadd fsub fmul fdiv Hs Hm Hd t r x). Qed.
+Check thomas_dominant_backward_stable : forall (u : R), (0 <= u <= 1 / 64)%R ->
+  forall (fadd fsub fmul fdiv : R -> R -> R),
+  (forall x y, exists d, (Rabs d <= u)%R /\ fsub x y = ((x - y) * (1 + d))%R) ->
+  (forall x y, exists d, (Rabs d <= u)%R /\ fmul x y = (x * y * (1 + d))%R) ->
+  (forall x y, y <> 0%R -> exists d, (Rabs d <= u)%R /\ fdiv x y = (x / y * (1 + d))%R) ->
+  forall (t : tridiag (ARnd fadd fsub fmul fdiv)) (r x : list R),
+  wfT t -> (1 <= tn t)%nat -> length r = tn t -> dominant_u u fadd fsub fmul fdiv t -> tsolve t r = Ok x ->
+  length x = tn t /\
+  forall i, (i < tn t)%nat -> exists da db dc,
+    (Rabs da <= 3 * u * Rabs (nth i (0 :: tsub t) 0) /\
+     Rabs db <= 5 * u * Rabs (nth i (tmain t) 0) + 9 * u * Rabs (nth i (0 :: tsub t) 0) /\
+     Rabs dc <= 5 * u * Rabs (nth i (tsup t) 0) /\
+     (nth i (0 :: tsub t) 0 + da) * nth i (0 :: x) 0 + (nth i (tmain t) 0 + db) * nth i x 0
+     + (nth i (tsup t) 0 + dc) * nth (i + 1) x 0 = nth i r 0)%R.
+Print Assumptions thomas_dominant_backward_stable.
+Print Assumptions tridiag_views.   (* separator, as above *)
+(* with the error-committing operations of the previous example, the 2x2 system [[4,1],[1,4]] x = [1,2] is dominant with
+   the margin and is solved *)
+Example thomas_dominant_backward_stable_nonvacuous :
+  let u := (1 / 64)%R in
+  let fsub := fun x y => ((x - y) * (1 + 1 / 64))%R in
+  let fmul := fun x y => (x * y * (1 + - (1 / 128)))%R in
+  let fdiv := fun x y => (x / y)%R in
+  let t := @mkT (ARnd Rplus fsub fmul fdiv) [1%R] [4%R; 4%R] [1%R] 2 in
+  wfT t /\ (1 <= tn t)%nat /\ length [1%R; 2%R] = tn t /\ dominant_u u Rplus fsub fmul fdiv t /\
+  exists x, tsolve t [1%R; 2%R] = Ok x.
+Proof.
+  cbv zeta. split; [unfold wfT; cbn; auto|]. split; [cbn; auto|]. split; [reflexivity|]. split.
+  - intros i Hi. cbn [tn] in Hi.
+    destruct i as [|[|i]]; [| |exfalso; apply (Nat.lt_irrefl 2); apply (Nat.le_lt_trans _ (S (S i))); [apply le_n_S, le_n_S, Nat.le_0_l|exact Hi]];
+      cbn [nth tmain tsub tsup]; (split; [lra|]); unfold Rabs; repeat destruct Rcase_abs; lra.
+  - unfold tsolve. cbn. destruct (Req_EM_T 4 0) as [E|_]; [lra|].
+    match goal with |- context [Req_EM_T ?b 0] => destruct (Req_EM_T b 0) as [E|_] end.
+    + exfalso. lra.
+    + eexists. reflexivity.
+Qed.
+
+(* ---- ... and such a system is never refused: strict dominance with the margin, standard model ----
+   [dominant_su u t] : (|sub_{i-1}| + |sup_i|)(1+u) < |main_i|(1-u) for every row.  Then solve answers (no pivot,
+   as computed with rounding, can vanish) and the answer is backward stable as above. *)
+Theorem thomas_dominant_solved_and_stable : forall (u : R), (0 <= u <= 1 / 64)%R ->
+  forall (fadd fsub fmul fdiv : R -> R -> R),
+  (forall x y, exists d, (Rabs d <= u)%R /\ fsub x y = ((x - y) * (1 + d))%R) ->
+  (forall x y, exists d, (Rabs d <= u)%R /\ fmul x y = (x * y * (1 + d))%R) ->
+  (forall x y, y <> 0%R -> exists d, (Rabs d <= u)%R /\ fdiv x y = (x / y * (1 + d))%R) ->
+  forall (t : tridiag (ARnd fadd fsub fmul fdiv)) (r : list R),
+  wfT t -> (1 <= tn t)%nat -> length r = tn t -> dominant_su u fadd fsub fmul fdiv t ->
+  exists x, tsolve t r = Ok x /\ length x = tn t /\
+  forall i, (i < tn t)%nat -> exists da db dc,
+    (Rabs da <= 3 * u * Rabs (nth i (0 :: tsub t) 0) /\
+     Rabs db <= 5 * u * Rabs (nth i (tmain t) 0) + 9 * u * Rabs (nth i (0 :: tsub t) 0) /\
+     Rabs dc <= 5 * u * Rabs (nth i (tsup t) 0) /\
+     (nth i (0 :: tsub t) 0 + da) * nth i (0 :: x) 0 + (nth i (tmain t) 0 + db) * nth i x 0
+     + (nth i (tsup t) 0 + dc) * nth (i + 1) x 0 = nth i r 0)%R.
+Proof. intros u Hu fadd fsub fmul fdiv Hs Hm Hd t r. exact (thomas_dominant_solved_and_stable_lemma u Hu fadd fsub fmul fdiv Hs Hm Hd t r). Qed.
+Check thomas_dominant_solved_and_stable : forall (u : R), (0 <= u <= 1 / 64)%R ->
+  forall (fadd fsub fmul fdiv : R -> R -> R),
+  (forall x y, exists d, (Rabs d <= u)%R /\ fsub x y = ((x - y) * (1 + d))%R) ->
+  (forall x y, exists d, (Rabs d <= u)%R /\ fmul x y = (x * y * (1 + d))%R) ->
+  (forall x y, y <> 0%R -> exists d, (Rabs d <= u)%R /\ fdiv x y = (x / y * (1 + d))%R) ->
+  forall (t : tridiag (ARnd fadd fsub fmul fdiv)) (r : list R),
+  wfT t -> (1 <= tn t)%nat -> length r = tn t -> dominant_su u fadd fsub fmul fdiv t ->
+  exists x, tsolve t r = Ok x /\ length x = tn t /\
+  forall i, (i < tn t)%nat -> exists da db dc,
+    (Rabs da <= 3 * u * Rabs (nth i (0 :: tsub t) 0) /\
+     Rabs db <= 5 * u * Rabs (nth i (tmain t) 0) + 9 * u * Rabs (nth i (0 :: tsub t) 0) /\
+     Rabs dc <= 5 * u * Rabs (nth i (tsup t) 0) /\
+     (nth i (0 :: tsub t) 0 + da) * nth i (0 :: x) 0 + (nth i (tmain t) 0 + db) * nth i x 0
+     + (nth i (tsup t) 0 + dc) * nth (i + 1) x 0 = nth i r 0)%R.
+Print Assumptions thomas_dominant_solved_and_stable.
+Print Assumptions tridiag_views.   (* separator, as above *)
+Example thomas_dominant_solved_and_stable_nonvacuous :    (* the 2x2 system of the previous example is strictly dominant with the margin *)
+  let u := (1 / 64)%R in
+  let fsub := fun x y => ((x - y) * (1 + 1 / 64))%R in
+  let fmul := fun x y => (x * y * (1 + - (1 / 128)))%R in
+  let fdiv := fun x y => (x / y)%R in
+  let t := @mkT (ARnd Rplus fsub fmul fdiv) [1%R] [4%R; 4%R] [1%R] 2 in
+  wfT t /\ (1 <= tn t)%nat /\ length [1%R; 2%R] = tn t /\ dominant_su u Rplus fsub fmul fdiv t.
+Proof.
+  cbv zeta. split; [unfold wfT; cbn; auto|]. split; [cbn; auto|]. split; [reflexivity|].
+  intros i Hi. cbn [tn] in Hi.
+  destruct i as [|[|i]]; [| |exfalso; apply (Nat.lt_irrefl 2); apply (Nat.le_lt_trans _ (S (S i))); [apply le_n_S, le_n_S, Nat.le_0_l|exact Hi]];
+    cbn [nth tmain tsub tsup]; unfold Rabs; repeat destruct Rcase_abs; lra.
+Qed.
